@@ -52,7 +52,7 @@ Proof. exact explicit_width_alone_honoured. Qed.
 (* automatic size, label drawn inside: the label fits into the inner box of the final size — for every
    label size >= 0, with or without icon / link+tooltip, for every shape of the C27 model, under C27's side
    condition on the fitted content (true for all shapes but c4-person and cloud; person has an outside label).
-   The oval is outside this theorem (trigonometric fit): monitored only. *)
+   The oval has its own theorem below (relative to the trigonometric oracle). *)
 Theorem C21_auto_size_fits_label :
   forall i s,
     dw i = None -> dh i = None -> label_empty i = false -> label_inside (k i) = true ->
@@ -64,6 +64,20 @@ Theorem C21_auto_size_fits_label :
     Contains (inject_Z (lw i)) (inject_Z (lh i))
              (inner s (fst r) (snd r) (inject_Z (fst c)) (inject_Z (snd c))).
 Proof. exact auto_size_fits_label. Qed.
+
+(* The oval, relative to its trigonometric oracle: oc, os = cos, sin of the content angle; cr, sr = cos*r, sin*r
+   of the final ellipse (V.C27.Model); both hypotheses are evaluated by the harness on what Go's math package
+   returns (codes 3, 4).  Label sizes up to 100000 px (the 1e-5 relative slack of the oracle must stay below the
+   inner label padding). *)
+Theorem C21_auto_size_fits_label_oval_partial :
+  forall i cr sr,
+    k i = KOval -> dw i = None -> dh i = None -> label_empty i = false -> never_shrink i = false ->
+    (0 <= lw i <= 100000)%Z -> (0 <= lh i <= 100000)%Z ->
+    H_oval_b i = true ->
+    let r := set_dimensions i in
+    H_radius_b cr sr (fst r) (snd r) = true ->
+    Contains (inject_Z (lw i)) (inject_Z (lh i)) (inner_oval cr sr (fst r) (snd r)).
+Proof. exact auto_size_fits_label_oval. Qed.
 
 (* Without the side condition the statement is refuted on the faithful model (and on the real code):
    c4-person with a 75x355 label is sized 297x446 with a 267.3x301.6 text area; cloud with a 295x240 label is
@@ -85,5 +99,6 @@ Print Assumptions C21_square_circle_use_max.
 Print Assumptions C21_never_below_content.
 Print Assumptions C21_explicit_width_alone_honoured.
 Print Assumptions C21_auto_size_fits_label.
+Print Assumptions C21_auto_size_fits_label_oval_partial.
 Print Assumptions C21_auto_size_c4person_refuted.
 Print Assumptions C21_auto_size_cloud_refuted.
